@@ -235,6 +235,19 @@ func runC11(c *Ctx) {
 			doRead(pick(rng, []string{"object", "object-getvar"}), v.Name, *v.GUID, pick(rng, efivarsDirs), uint32(v.Attributes), content, false, "predefined-x-stored-mask")
 		}
 	}
+	// exhaustive: every required mask over the eight low bits x each single required bit missing from the stored mask
+	for req := uint32(1); req < 256; req++ {
+		for b := uint32(1); b < 256; b <<= 1 {
+			if req&b == 0 || (c.Quick() && (req*7+b)%3 != 0) {
+				continue
+			}
+			g, _ := genGUID(rng)
+			value, _ := genValue(rng)
+			stored := req &^ b
+			content := append([]byte{byte(stored), 0, 0, 0}, value...)
+			doRead(pick(rng, []string{"object", "object-getvar"}), "Var", g, efivarsDirs[0], req, content, false, "exhaustive-one-required-bit-missing")
+		}
+	}
 	n := c.N(600, 12000)
 	for i := 0; i < n; i++ {
 		v, vclass := genVar(rng)
